@@ -139,3 +139,21 @@ def assigned_value(fi, name):
                         if isinstance(tt, ast.Name) and tt.id == name:
                             vals.append(vv)
     return vals
+
+
+def assign_pairs(fi):
+    """(target, value, stmt) for every assignment in fi, tuple unpacking split."""
+    out = []
+    for n in own_nodes(fi):
+        if isinstance(n, ast.Assign):
+            for t in n.targets:
+                if isinstance(t, (ast.Tuple, ast.List)) and isinstance(
+                        n.value, (ast.Tuple, ast.List)) and len(t.elts) == len(
+                        n.value.elts):
+                    for tt, vv in zip(t.elts, n.value.elts):
+                        out.append((tt, vv, n))
+                else:
+                    out.append((t, n.value, n))
+        elif isinstance(n, ast.AugAssign):
+            out.append((n.target, n.value, n))
+    return out
